@@ -28,7 +28,16 @@ func (w *World) StreamSession(name string, maxMsgs int64, ackFrac, nackFrac floa
 	seam.C.SetTick(0)
 	defer seam.C.SetTick(tick)
 	s, live := w.Subs[name]
-	fs := rig.NewFakeStream(w.Ctx)
+	// some sessions send their ack / nack request while a statement of the stream
+	// fails: either the stream ends with an error (nothing was confirmed), or it
+	// goes on - and then what it was told is as binding as ever
+	faultActor := ""
+	sctx := w.Ctx
+	if w.StreamAckFaultPct > 0 && live && w.R.Intn(100) < w.StreamAckFaultPct {
+		faultActor = fmt.Sprintf("faulty-stream-%d", w.opn())
+		sctx = w.E.Actor(faultActor)
+	}
+	fs := rig.NewFakeStream(sctx)
 	// virtual time does not move during a session (nobody sleeps), so no lease can
 	// run out in it: a message may be sent, and once more after its nack - a
 	// stream that keeps re-sending one ack id is handing it out inside its lease,
@@ -135,6 +144,7 @@ func (w *World) StreamSession(name string, maxMsgs int64, ackFrac, nackFrac floa
 		}
 	}
 	process()
+	faultEnded := false
 	// ack / nack part of it on the stream
 	var acks, nacks []string
 	var pids []string
@@ -195,9 +205,39 @@ func (w *World) StreamSession(name string, maxMsgs int64, ackFrac, nackFrac floa
 			w.stat("stream_requests_mixing_nack_and_extension", 1)
 		}
 		alo := w.now()
+		faultHit := false
+		if faultActor != "" {
+			seam.C.ResetCounts()
+			seam.C.SetFault(&seam.Fault{Actor: faultActor, K: 1 + w.R.Intn(6), Mode: seam.FaultError})
+		}
 		fs.Push(req)
 		rig.Quiesce()
+		if faultActor != "" {
+			faultHit = seam.C.FaultHits() > 0
+			seam.C.SetFault(nil)
+		}
 		ahi := w.now()
+		if faultHit {
+			w.stat("stream_requests_under_a_storage_fault", 1)
+		}
+		if faultHit && fs.Context().Err() != nil {
+			// the stream ended: nothing in the request was confirmed. Which of the
+			// stream's transactions the fault hit is internal, so whether the
+			// request took effect before the stream died is not known
+			w.stat("stream_ended_by_the_fault", 1)
+			for _, ids := range [][]string{acks, nacks, extIDs} {
+				for _, id := range ids {
+					if d := w.ByAck[id]; d != nil && d.State == Out {
+						d.Wild = true
+					}
+				}
+			}
+			faultEnded = true
+			acks, nacks, extIDs = nil, nil, nil
+			idleCheck = false
+		} else if faultHit {
+			w.stat("stream_survived_the_fault", 1)
+		}
 		for _, id := range acks {
 			if d := w.ByAck[id]; d != nil && d.State == Out {
 				d.State = Acked
@@ -238,7 +278,7 @@ func (w *World) StreamSession(name string, maxMsgs int64, ackFrac, nackFrac floa
 	err := <-done
 	rig.Quiesce()
 	w.rec("stream", fmt.Sprintf("%s max=%d acks=%d nacks=%d", name, maxMsgs, len(acks), len(nacks)), fmt.Sprintf("%s sent=%d selfExit=%v err=%v", code(err), total, selfExit, err))
-	if selfExit && !s.Wild {
+	if selfExit && !s.Wild && !faultEnded {
 		w.violate("C01", "stream-ended-by-server", "stream on live subscription %s#%d was ended by the server: %v", name, s.Gen, err)
 	}
 	w.stat("stream_sessions", 1)
